@@ -56,3 +56,32 @@ Proof.
   - destruct k as [|[|[|[|k]]]]; cbn; auto 6; lia.
   - destruct k as [|[|[|[|[|k]]]]]; cbn; auto 7; lia.
 Qed.
+
+(* ---- composition with C01 (added): the graph NN-descent is restarted from is true for the NEW data ----
+   If the stored (sorted) neighbour graph is true for the old distance table dm, and the new table dm'
+   agrees with dm on every pair of points that were not replaced, then the heap update() builds -
+   make_heap, init_from_neighbor_graph of the INVALIDATED graph, the leaves of a fresh forest,
+   init_random - satisfies C01's invariant for dm'.  C01_nn_descent_invariant (init = Some heap) then
+   carries the invariant through the whole re-run, for every generator state and both memory modes:
+   every distance stored after update() is a true distance of the logical dataset. *)
+From PV Require Import C01Proofs C04Compose.
+
+Theorem C04_invalidated_graph_true_for_new_data :
+  forall (dm dm' : nat -> nat -> Z) (inf : Z) (n : nat) (U : list nat),
+    (forall a b, ~ In a U -> ~ In b U -> dm' a b = dm a b) ->
+    forall g, rows_true inf n dm g -> rows_true inf n dm' (invalidate inf U g).
+Proof. intros dm dm' inf n U H g Hg. eapply (invalidate_true_for_new_table dm dm'); eauto. Qed.
+Print Assumptions C04_invalidated_graph_true_for_new_data.
+
+Theorem C04_update_restarts_from_a_true_graph :
+  forall (dm dm' : nat -> nat -> Z) (inf : Z) (n k : nat) (U : list nat),
+    (0 < k)%nat -> (forall a b, dm' a b = dm' b a) ->
+    (forall a b, ~ In a U -> ~ In b U -> dm' a b = dm a b) ->
+    forall (g0 : list (list (Z * Z))) leaves rng,
+      (length g0 <= n)%nat -> rows_true inf n dm g0 ->
+      Forall (Forall (id_ok n)) leaves ->
+      let gi := invalidate inf U g0 in
+      let h0 := NND.init_from_neighbor_graph (NND.make_heap inf n k) (map (map fst) gi) (map (map snd) gi) in
+      GWF dm' inf n k (fst (NND.init_random dm' k n (NND.init_rp_tree inf dm' h0 leaves) rng)).
+Proof. exact update_restart_GWF. Qed.
+Print Assumptions C04_update_restarts_from_a_true_graph.
